@@ -2,13 +2,17 @@
    Server.Evaluate, run_model) and of the byte codec used between
    Server.Evaluate (ndarray.tobytes) and GRPCNetwork.evaluate (np.frombuffer).
 
-   The server is a state machine driven by three kinds of events, each carrying
+   The server is a state machine driven by four kinds of events, each carrying
    a time in integer microseconds:
-     Arrive r t   a client entered Server.Evaluate with request r
+     Arrive r t   a client entered Server.Evaluate with request r: the request
+                  is put on the queue, or the client blocks in queue.put; a put
+                  wakes the worker (call_soon) but does not run it
+     Wake t       the worker task, woken by a put, gets to run: any number of
+                  arrivals may have been processed by the event loop before
      Timer t      the 1 ms gather timeout of asyncio.wait_for expired
      ModelDone t  the executor future of run_model completed
-   Everything the event loop does at one instant after such an event (the woken
-   worker draining the queue, woken putters re-filling it) is one step.
+   What a running worker does without suspending (draining the queue; the woken
+   putters re-filling it right after) is one step.
 
    No proofs in this file. *)
 From Coq Require Import ZArith List Bool.
@@ -32,11 +36,12 @@ Inductive worker :=
 
 Inductive event :=
 | Arrive (r : req) (t : Z)
+| Wake (t : Z)
 | Timer (t : Z)
 | ModelDone (t : Z).
 
 Definition ev_time (e : event) : Z :=
-  match e with Arrive _ t => t | Timer t => t | ModelDone t => t end.
+  match e with Arrive _ t => t | Wake t => t | Timer t => t | ModelDone t => t end.
 
 (* ---- the inner `while True:` of worker_loop, run without suspension as long
    as the queue has elements: q = queue content, b = batch so far.
@@ -90,7 +95,7 @@ Section Server.
 
   Definition init : state := mkSt [] [] Idle [] [] 0.
 
-  (* the worker, suspended in a get, is woken with a non-empty queue at time t:
+  (* the worker, suspended in a get, runs with a non-empty queue at time t:
      it takes the whole queue (see inner), the woken putters re-fill the queue,
      then the model starts or the worker suspends with deadline t + 1 ms *)
   Definition resume (st : state) (t : Z) : state :=
@@ -112,9 +117,11 @@ Section Server.
   Definition step (st : state) (e : event) : state :=
     match e with
     | Arrive r t =>
+      (* Queue.put: `while self.full(): <block>`; put_nowait *)
       if qlen (queue st) <? cap
-      then resume (mkSt (queue st ++ [r]) (blocked st) (wk st) (started st) (answers st) (completed st)) t
+      then mkSt (queue st ++ [r]) (blocked st) (wk st) (started st) (answers st) (completed st)
       else mkSt (queue st) (blocked st ++ [r]) (wk st) (started st) (answers st) (completed st)
+    | Wake t => resume st t                 (* nothing to do if the queue is empty or the model is running *)
     | Timer t =>
       match wk st with
       | Gathering b d =>
@@ -142,24 +149,34 @@ Section Server.
   Definition pending (st : state) : list req := batch_of st ++ queue st ++ blocked st.
 
   (* ---- used by the correspondence only: is an observed event list consistent
-     with the timing the model predicts?  Times do not decrease; nothing happens
-     later than a pending gather deadline; a Timer is the expiry of exactly the
+     with the timing the model predicts?  Times do not decrease; a worker that
+     has been woken (it waits in a get and the queue is not empty) runs at the
+     same instant, after the arrivals of that instant; nothing happens later
+     than a pending gather deadline; a Timer is the expiry of exactly the
      pending deadline; ModelDone happens only while the model runs; the i-th
      model call takes lat_i; at the end the server is quiescent. *)
+  Definition woken (st : state) : bool :=
+    match wk st, queue st with
+    | Running _, _ => false
+    | _, [] => false
+    | _, _ :: _ => true
+    end.
   Fixpoint timely_from (st : state) (last : Z) (lats : list Z) (evs : list event) : bool :=
     match evs with
     | [] => match wk st, queue st, blocked st, lats with Idle, [], [], [] => true | _, _, _, _ => false end
     | e :: evs' =>
       let t := ev_time e in
-      (last <=? t) &&
+      (last <=? t) && (negb (woken st) || (t =? last)) &&
       match wk st, e with
       | Gathering _ d, Arrive _ _ => (t <? d) && timely_from (step st e) t lats evs'
+      | Gathering _ d, Wake _ => (t <? d) && woken st && timely_from (step st e) t lats evs'
       | Gathering _ d, Timer _ => (t =? d) && timely_from (step st e) t lats evs'
       | Running _, ModelDone _ =>
         match lats, rev (started st) with
         | l :: lats', (s, _) :: _ => (t =? s + l) && timely_from (step st e) t lats' evs'
         | _, _ => false
         end
+      | Idle, Wake _ => woken st && timely_from (step st e) t lats evs'
       | _, Arrive _ _ => timely_from (step st e) t lats evs'
       | _, _ => false
       end
